@@ -116,26 +116,45 @@ fn batch(tier: &str) -> i32 {
     // build the jump tables first (deterministic, independent of the seed)
     let idx = gen::index();
     let n_jumps: u64 = idx.iter().map(|v| v.len() as u64).sum();
-    let mut agg = simcore::par_batch(runs, simcore::workers(), 4, |idx, agg| {
-        let mut rng = Rng::derive(seed, ENGINE_TAG, idx);
-        let sc = gen::generate(&mut rng, tier);
-        let out = execute(&sc);
-        record(idx, &sc, out, agg, &known);
-    });
+    let mut agg = simcore::par_batch_watched(
+        runs,
+        simcore::workers(),
+        4,
+        |idx, agg| {
+            let mut rng = Rng::derive(seed, ENGINE_TAG, idx);
+            let sc = gen::generate(&mut rng, tier);
+            let out = execute(&sc);
+            record(idx, &sc, out, agg, &known);
+        },
+        |idx| {
+            let mut rng = Rng::derive(seed, ENGINE_TAG, idx);
+            let sc = gen::generate(&mut rng, tier);
+            simcore::report_hang(PROPERTY, seed, idx, json!({"engine": "e3", "minimised": sc}))
+        },
+    );
     // thorough: exhaustive sweep of the jump table, BATTERY seeded walks per jump
     let mut sweep_runs = 0u64;
     let mut exhaustive = false;
     if tier == "thorough" && agg.violations.is_empty() {
         let flat: Vec<(u32, u32)> = zones::tables().iter().enumerate().flat_map(|(zi, t)| (0..t.jumps.len()).map(move |ji| (zi as u32, ji as u32))).collect();
         let total = flat.len() as u64 * BATTERY;
-        let sweep = simcore::par_batch(total, simcore::workers(), 0, |i, agg| {
+        let sweep_sc = |i: u64| {
             let (zi, ji) = flat[(i / BATTERY) as usize];
             let t = &zones::tables()[zi as usize];
             let mut rng = Rng::derive(seed, SWEEP_TAG, i);
-            let sc = gen::scenario_around(&mut rng, t.tz, t.jumps[ji as usize]);
-            let out = execute(&sc);
-            record(runs + i, &sc, out, agg, &known);
-        });
+            gen::scenario_around(&mut rng, t.tz, t.jumps[ji as usize])
+        };
+        let sweep = simcore::par_batch_watched(
+            total,
+            simcore::workers(),
+            0,
+            |i, agg| {
+                let sc = sweep_sc(i);
+                let out = execute(&sc);
+                record(runs + i, &sc, out, agg, &known);
+            },
+            |i| simcore::report_hang(PROPERTY, seed, runs + i, json!({"engine": "e3", "minimised": sweep_sc(i)})),
+        );
         sweep_runs = sweep.runs;
         exhaustive = sweep.violations.is_empty() && sweep.runs == total;
         agg.merge(sweep, 4);
@@ -184,7 +203,12 @@ fn replay(path: &str) -> i32 {
         }
     };
     let want = v["class"].as_str().unwrap_or("");
-    let out = execute(&sc);
+    let sc2 = sc.clone();
+    let Some(out) = simcore::with_timeout(move || execute(&sc2)) else {
+        println!("VIOLATION property={PROPERTY} replay={path}");
+        println!("  class=hang detail: the replayed run did not return within {} s", simcore::run_timeout().as_secs());
+        return 1;
+    };
     if let Some(e) = out.harness_error {
         eprintln!("harness error: {e}");
         return 2;
